@@ -402,8 +402,29 @@ func (e *c03Env) reset() {
 
 // flags appended to an outcome line when something outside the key directory was touched (the model never prints them)
 func (e *c03Env) decoyFlags() string {
+	res := ""
 	if _, err := os.Stat(e.decoy); err != nil {
-		return " DECOY-GONE"
+		res = " DECOY-GONE"
+	}
+	return res + e.tmpFlags()
+}
+
+// the system temp dir (TMPDIR points into the sandbox) must never hold a PEM private key, not even after a failed save
+func (e *c03Env) tmpFlags() string {
+	td := filepath.Join(e.root, "tmpdir")
+	found := 0
+	_ = filepath.Walk(td, func(p string, info os.FileInfo, err error) error {
+		if err == nil && !info.IsDir() && info.Size() < 1<<20 {
+			if b, rerr := os.ReadFile(p); rerr == nil && strings.Contains(string(b), "PRIVATE KEY") {
+				found++
+				e.sink("files-outside-keydir", b)
+				_ = os.Remove(p)
+			}
+		}
+		return nil
+	})
+	if found > 0 {
+		return fmt.Sprintf(" KEY-MATERIAL-OUTSIDE-KEY-DIR:tmpdir(%d)", found)
 	}
 	return ""
 }
@@ -568,7 +589,7 @@ func (e *c03Env) exec(op map[string]interface{}) (line string) {
 		if !regexp.MustCompile(`^[0-9a-f]{8}-[0-9a-f]{4}-[0-9a-f]{4}-[0-9a-f]{4}-[0-9a-f]{12}$`).MatchString(name) {
 			res += " KEYNAME-NOT-UUID"
 		}
-		return res
+		return res + e.tmpFlags()
 	case "link":
 		err := e.client.Link(ctx, str("kid"), str("keyName"), str("version"))
 		e.sink("returns", err)
@@ -604,7 +625,7 @@ func (e *c03Env) exec(op map[string]interface{}) (line string) {
 		e.harvestCanaries()
 		idx := e.pubIndex(kp.Public())
 		e.ktypes[idx] = str("ktype")
-		return fmt.Sprintf("plant ok key=K%d", idx)
+		return fmt.Sprintf("plant ok key=K%d", idx) + e.tmpFlags()
 	case "migrate":
 		err := e.client.Migrate()
 		e.sink("returns", err)
@@ -1057,6 +1078,11 @@ func TestVerifC03(t *testing.T) {
 		t.Fatal(err)
 	}
 	e.db = e.engine.GetSQLDatabase()
+	// from here on the system temp dir is a watched directory inside the sandbox (the storage engine keeps the real one)
+	if err := os.MkdirAll(filepath.Join(root, "tmpdir"), 0o700); err != nil {
+		t.Fatal(err)
+	}
+	t.Setenv("TMPDIR", filepath.Join(root, "tmpdir"))
 	e.jwks = c03MakeJWKs(t)
 	e.pkgKey, _ = ecdsa.GenerateKey(elliptic.P256(), crand.Reader)
 	memKey, _ := jwk.FromRaw(e.pkgKey)
